@@ -7,7 +7,11 @@ MODULES = ['DsdVerif.Props.C20']
 GEN_FILES = ['LegacyIupac', 'IupacTables', 'LegacyWrappers']
 THEOREM_NAMES = ['legacy_iupac_agree_dna', 'legacy_iupac_agree_rna', 'legacy_wobble_total']
 THEOREMS = ['Dsd.C20.' + t for t in THEOREM_NAMES] + ['Dsd.C20L.' + t for t in ('legacy_canon_eq', 'legacy_rotations_spec', 'legacy_dup_iff')] + \
-    ['Dsd.C20.legacy_wrappers_delegate']
+    ['Dsd.C20.legacy_wrappers_delegate', 'Dsd.C20F.legacy_rotate_once_eq', 'Dsd.C20F.legacy_construct_eq',
+     'Dsd.C20F.legacy_refused_leaves_nothing', 'Dsd.C20F.legacy_full_canon_eq', 'Dsd.C20F.Findings.swapped_writes_leak',
+     'Dsd.C20V.legacy_kernel_string_eq', 'Dsd.C20V.legacy_pair_table_eq', 'Dsd.C20V.legacy_is_connected_eq', 'Dsd.C20V.legacy_exterior_eq',
+     'Dsd.C20V.legacy_enclosed_eq', 'Dsd.C20V.legacy_get_paired_loc_eq', 'Dsd.C20V.legacy_get_loop_index_eq',
+     'Dsd.C20V.legacy_rotate_pairtable_loc_eq', 'Dsd.C20V.legacy_views_registered', 'Dsd.C20V.legacy_views_after_rotate_once']
 ASSUMPTIONS = [
     'the legacy SequenceConstraint tables are transcribed from the dictionaries inside its methods (Gen/LegacyIupac.lean, evaluated with '
     'T -> T and T -> U) and compared with the current tables by kernel-decided theorems',
@@ -15,7 +19,18 @@ ASSUMPTIONS = [
     'the functions modelled and proved for C06-C09)',
 ]
 MANIFEST = {
-    'text': 'Partial. Translator-based proof for the sequence-constraint clause: legacy_iupac_agree_dna / _rna (every row of the legacy '
+    'text': 'Largely full on the model. Model/LegacyFull.lean follows the legacy DSD_Complex statement by statement (class state ID / NAMES / '
+            'MEMORY, __init__ with naming and memorycheck, canonical_form with its rotation loop, do_memorycheck, its OWN rotate_once, '
+            'all views with their caches; the model was additionally run against deprecated.py on 42 000 outputs). Proved: '
+            'legacy_rotate_once_eq (the legacy bracket flipping equals the current rotate_complex_once on every pair of equal-length '
+            'lists), legacy_construct_eq (on corresponding registry states a legacy construction creates / reports a duplicate with '
+            'existing object and rotation equation / reports a name clash exactly when the current API creates / refuses with '
+            'existing / refuses), legacy_refused_leaves_nothing (a refused construction leaves NAMES and MEMORY unchanged; '
+            'swapped_writes_leak shows the seeded regression violates it), legacy_full_canon_eq, and the view equalities '
+            'legacy_kernel_string_eq, _pair_table_eq, _is_connected_eq, _exterior_eq, _enclosed_eq, _get_paired_loc_eq, '
+            '_get_loop_index_eq, _rotate_pairtable_loc_eq (sign convention), valid after __init__ and after rotate_once(). '
+            'Differences between the two APIs outside the property are kept as kernel-checked findings (empty name, prefix checks, '
+            'ID counter, memorycheck=False, stale caches after rotate_once, ...). Translator-based proof for the sequence-constraint clause: legacy_iupac_agree_dna / _rna (every row of the legacy '
             'complement dictionaries regenerated from deprecated.py agrees with the current table wherever both are defined) and '
             'legacy_wobble_total, decided by the Lean kernel; legacy_canon_eq (the legacy canonical form is the same minimal rotation) as '
             'listed in the evidence when present; legacy_wrappers_delegate: the five deprecated utility wrappers of utils.py are reduced by the '
@@ -24,8 +39,8 @@ MANIFEST = {
             'size, connectivity, exterior / enclosed domains, split components, duplicate detection with the rotation equation) are '
             'decided on the real code by driving DSD_Complex / the deprecated wrappers and ComplexS / complex_utils with the same '
             'descriptions in every rotation.',
-    'note': 'The legacy object model (DSD_Complex, 1400 lines) is not modelled in Lean; its utility calls are the deprecated wrappers, which are proved to be delegations.',
-    'technique': 'Lean 4 decide over legacy tables and wrapper delegations regenerated from source; differential exploration of legacy vs current API on the real code',
+    'note': 'is_domainlevel_complement, the name setter and the domains property of the legacy class are not modelled; the legacy model is hand-written (tied by differential runs), the wrappers and tables are translated.',
+    'technique': 'Lean 4 statement-level model of the legacy class proved equivalent to the current API model; decide over legacy tables and wrapper delegations regenerated from source; differential exploration of legacy vs current API on the real code',
 }
 
 
